@@ -106,7 +106,7 @@ def _classpath():
 
 
 def run_tlc(module, cfg, outfile, workers=12, timeout=1500, simulate=None, depth_first=False,
-            extra_env=None, java_opts=None, coverage=True, allow_violation=False, xmx=None):
+            extra_env=None, java_opts=None, coverage=True, allow_violation=False, xmx=None, tlc_args=None):
     """Run TLC; returns dict(generated, distinct, depth, coverage{action: count}, violated: name|None).
     Raises ToolError on any TLC error other than a (permitted) invariant violation."""
     ensure_dirs()
@@ -118,6 +118,8 @@ def run_tlc(module, cfg, outfile, workers=12, timeout=1500, simulate=None, depth
         cmd += ["-coverage", "1"]
     if simulate:
         cmd += ["-simulate", simulate]
+    if tlc_args:
+        cmd += list(tlc_args)
     cmd += ["-config", os.path.join(SPEC, cfg), os.path.join(SPEC, module)]
     env = dict(extra_env or {})
     jopts = java_opts or "-Xss512m"
@@ -146,6 +148,10 @@ def run_tlc(module, cfg, outfile, workers=12, timeout=1500, simulate=None, depth
     m = re.findall(r"(\d+) states generated, (\d+) distinct states found", text)
     if m:
         res["generated"], res["distinct"] = int(m[-1][0]), int(m[-1][1])
+    if not m:
+        m2 = re.findall(r"number of states generated: (\d+)", text) or re.findall(r"(\d+) states checked", text)
+        if m2:
+            res["generated"] = res["distinct"] = int(m2[-1])
     m = re.search(r"depth of the complete state graph search is (\d+)", text)
     if m:
         res["depth"] = int(m.group(1))
